@@ -258,7 +258,8 @@ def _constructible_roundtrip(ctx):
                 continue
             ref = ref_decode(enc, kind)
             if ref != (name, pdu.sequence_number):
-                ctx.violation(f"build-{name}-encodes-to-code-of-{ref[0] if ref else 'undefined'}", wit,
+                what_code = "undefined-code" if ref is None else ("other-sequence-number" if ref[0] == name else f"code-of-{ref[0]}")
+                ctx.violation(f"build-{name}-encodes-to-{what_code}", wit,
                               f"{pdu!r} encodes to {enc:#04x}, which the coding table reads as {ref} for a {kname} destination")
                 continue
             what, back = _resolve(enc, is_group, is_zero)
